@@ -239,7 +239,7 @@ def gen_script(rng, app_slots=False, small=False):
                     if mem and rng.random() < 0.4: r['mem'] = rng.choice([1, 4, mem])
                     if rng.random() < 0.15: r['rpn'] = rng.choice([1, 2])
                     if rng.random() < 0.15:
-                        r['colo'] = rng.choice([1, 2]); r['excl'] = rng.random() < 0.5
+                        r['colo'] = rng.choice([0, 1, 2]); r['excl'] = rng.random() < 0.5      # (a tag may be 0: any value names a tag)
                     if rng.random() < 0.1:  r['env'] = rng.choice([0, 1])
                     if rng.random() < 0.04: r['ranks'] = rng.choice([0, -1])
                     if app_slots and rng.random() < 0.25:
